@@ -118,9 +118,8 @@ def log2Strict (n : Nat) : Option Nat :=
 def validateShape (proof : Proof) (inst : Instance) (p : FriParams) : Verdict := Id.run do
   let capHeight := p.config.capHeight
   for cap in proof.commitCaps do
-    match log2Strict cap.length with
-    | none => return .panic "cap.height(): not a power of two"
-    | some h => if h ≠ capHeight then return .reject "shape"
+    -- `cap.len() == 1 << cap_height` (F-C18-1 repaired: no `MerkleCap::height()` panic any more)
+    if cap.length ≠ 2 ^ capHeight then return .reject "shape"
   for q in proof.queries do
     if q.initial.length ≠ inst.oracles.length then return .reject "shape"
     for ((leaf, mp), o) in q.initial.zip inst.oracles do
